@@ -777,8 +777,8 @@ class Interp:
         if name == "squeeze":
             def sq(axis=None):
                 if any(x == NP.ONE for x in a.axes):
-                    return AArr([x for x in a.axes if x != NP.ONE], a.term, a.buf, view=True)
-                return AArr(a.axes, a.term, a.buf, view=True)
+                    return AArr([x for x in a.axes if x != NP.ONE], a.term, a.buf, view=True, origin=(a, None))
+                return AArr(a.axes, a.term, a.buf, view=True, origin=(a, None))
             return sq
         raise AnalysisAbort(f"ndarray.{name} is not modelled")
 
